@@ -215,6 +215,15 @@ func (op bufOp) run(b *harfbuzz.Buffer, f *harfbuzz.Font, upem int32) bufResult 
 	if !sameRunes(text, op.Text) {
 		panic("the input text was modified")
 	}
+	if op.MutateAfter {
+		// the caller reuses its slices after the call returned
+		for i := range text {
+			text[i] = 0x5A
+		}
+		for i := range feats {
+			feats[i] = harfbuzz.Feature{Tag: mustTag("zzzz"), Value: 7, Start: 1, End: 2}
+		}
+	}
 	return res
 }
 
@@ -403,6 +412,7 @@ func drawBufShape(t *rapid.T, m *bufMachine) bufOp {
 		op.Script = drawScript(t, run)
 	}
 	op.Lang = rapid.SampledFrom([]string{"", "en", "en", "ar", "tr", "hi", "sr"}).Draw(t, "lang")
+	op.MutateAfter = rapid.IntRange(0, 3).Draw(t, "mutateAfter") == 0
 	if rapid.IntRange(0, 4).Draw(t, "settings") == 0 {
 		op.Flags = uint16(rapid.IntRange(0, 127).Draw(t, "flags"))
 		op.ClusterLevel = uint8(rapid.IntRange(0, 2).Draw(t, "clusterLevel"))
